@@ -37,7 +37,9 @@ type c12Meta struct {
 }
 
 var chunkChoices = [][]int{{1}, {2}, {3}, {7}, {13, 1}, {64}, {511}, {512}, {4096, 1}}
-var prefixChoices = []string{"/mnt/x", "/a/very/long/prefix/dir/for/the/tree", "/z"}
+
+// (directory names may hold a '%': "Team%20A" is the NAME of a directory, not an encoding of "Team A" - seeded change s90)
+var prefixChoices = []string{"/mnt/x", "/a/very/long/prefix/dir/for/the/tree", "/z", "/srv/Team%20A"}
 
 func (p c12) Gen(t *rapid.T, env *Env) (*Case, []*Out) {
 	maxFiles := 3
@@ -248,9 +250,24 @@ func (p c12) Gen(t *rapid.T, env *Env) (*Case, []*Out) {
 				kinds = append(kinds, "chunks")
 			case 6:
 				prefix = rapid.SampledFrom(prefixChoices).Draw(t, "prefix")
+				// a reference written as a file:// URL with the absolute location in it is a URL: there a '%' in a directory
+				// name would have to be escaped, and whether it is decoded is the resolver's business - no '%' for such worlds
+				absURL := false
+				for _, f := range w.Files {
+					if f.Doc != nil && bytes.Contains(f.Bytes(nil), []byte("file://"+RootPH)) {
+						absURL = true
+					}
+				}
+				noPct := func(p string) string {
+					if absURL && strings.Contains(p, "%") {
+						return "/relocated"
+					}
+					return p
+				}
+				prefix = noPct(prefix)
 				if (w.Cwd == w.Root || strings.HasPrefix(w.Cwd, w.Root+"/")) && rapid.Bool().Draw(t, "rename") {
 					// the schema directory also gets another NAME
-					prefix = "=" + rapid.SampledFrom([]string{"/srv/schemas-copy", "/relocated", "/home/u/proj/api"}).Draw(t, "newroot")
+					prefix = "=" + noPct(rapid.SampledFrom([]string{"/srv/schemas-copy", "/relocated", "/home/u/proj/api", "/data/v%31", "/data/100%25 done", "/sale/50%_off"}).Draw(t, "newroot"))
 				}
 				kinds = append(kinds, "reloc")
 			case 7:
